@@ -1,3 +1,4 @@
+import Regatta.Extracted.Facts
 import Regatta.Proofs.MetaSys
 /-
   C15 — At most one follower node holds a table's replication lease at a time.
@@ -121,5 +122,71 @@ example :
       .sched 1, .sched 2, .sched 1, .sched 2, .tick 11, .start 3 (.leaseStart 2 "t" 10), .sched 3, .sched 3]
     (s.calls.map (fun c => (c.1, match c.2 with | .doneOk => 1 | .doneErr .versionMismatch => 2 | _ => 0)))
       = [(3, 1), (2, 2), (1, 1)] := by decide
+
+end Regatta.Props.C15
+
+namespace Regatta.Props.C15
+
+/-! ### what a replication worker BELIEVES (replication/worker.go, the lease routine of `Start`)
+
+Every `leaseInterval` the worker asks `LeaseTable(table, 4 × leaseInterval)`; its `leased` flag becomes
+true exactly when that request succeeds and false when it fails - for WHATEVER reason - and the
+replication routine does nothing while the flag is false.  The flag is the link between the lease in
+the store (this file) and C05's assumption that one worker per table is active. -/
+
+/-- one tick of the lease routine as the flag sees it: the time of the tick and whether the request succeeded -/
+structure Renewal where
+  time : Int
+  ok : Bool
+
+/-- the flag after a sequence of ticks (oldest first): the outcome of the last one; false before the first -/
+def flagAfter (rs : List Renewal) : Bool := (rs.getLast?.map (·.ok)).getD false
+
+/-- the expiry the last successful request wrote, if the last request succeeded -/
+def believedUntil (dur : Int) (rs : List Renewal) : Option Int :=
+  match rs.getLast? with
+  | some r => if r.ok then some (r.time + dur) else none
+  | none => none
+
+/-- **the flag is true only on the strength of the LAST request**: if the worker believes it holds the
+lease, its last request succeeded, i.e. (by `c15_request_condition` / `c15_no_steal`) at that moment the
+store recorded this node as holder until `time + dur`; a failed request - lost race, time-out, store
+unavailable, anything - clears the belief at once (this is what seeded change C15-e removed) -/
+theorem c15_flag_means_last_request_succeeded (dur : Int) (rs : List Renewal) (h : flagAfter rs = true) :
+    ∃ r, rs.getLast? = some r ∧ r.ok = true ∧ believedUntil dur rs = some (r.time + dur) := by
+  unfold flagAfter at h
+  cases hl : rs.getLast? with
+  | none => rw [hl] at h; simp at h
+  | some r =>
+    rw [hl] at h
+    simp only [Option.map_some, Option.getD_some] at h
+    exact ⟨r, rfl, h, by simp [believedUntil, hl, h]⟩
+
+/-- … so, as long as ticks are not later than the lease lasts (`now < time + dur`: the routine ticks every
+`dur / 4`), a worker that believes it holds the lease holds an unexpired one; two nodes whose workers
+both believe so at one instant would both hold unexpired leases of the table, which the store never
+shows (`c15_invariant`: the record names one node) -/
+theorem c15_belief_within_lease (dur now : Int) (rs : List Renewal) (h : flagAfter rs = true)
+    (htick : ∀ r, rs.getLast? = some r → now < r.time + dur) :
+    ∃ u, believedUntil dur rs = some u ∧ now < u := by
+  obtain ⟨r, hl, _, hb⟩ := c15_flag_means_last_request_succeeded dur rs h
+  exact ⟨r.time + dur, hb, htick r hl⟩
+
+/-- a failed request ends the belief whatever came before -/
+theorem c15_failed_request_clears (rs : List Renewal) (t : Int) : flagAfter (rs ++ [⟨t, false⟩]) = false := by
+  simp [flagAfter]
+
+example : flagAfter [⟨0, true⟩, ⟨5, true⟩] = true ∧ flagAfter [⟨0, true⟩, ⟨5, false⟩] = false ∧ flagAfter [] = false := by
+  decide
+
+/-- **the lease routine of the current source is the one modelled**: the clause of `(*worker).Start` that
+calls `LeaseTable`, read with go/parser on every run - the request with four lease intervals, then the
+flag set on `err == nil` and cleared on EVERY other outcome, nothing in between - and the uses of the
+flag in the function: the two swaps and the one load that gates the replication routine -/
+theorem c15_worker_lease_clause_matches_source :
+    Regatta.Extracted.workerLeaseClause =
+      "err := w.engine.LeaseTable(w.table, w.leaseInterval*4) ; if err == nil { prev := w.leased.Swap(true) if !prev { w.metrics.replicationLeased.Set(1) } } else { prev := w.leased.Swap(false) if prev { w.metrics.replicationLeased.Set(0) } } ; " ∧
+    Regatta.Extracted.workerLeasedUses = ["w.leased.Swap(true)", "w.leased.Swap(false)", "w.leased.Load()"] :=
+  ⟨rfl, rfl⟩
 
 end Regatta.Props.C15
